@@ -296,7 +296,7 @@ func worker(sc *scratch, sp *spec, j *job, tag string, timeout time.Duration) ([
 	defer os.Remove(j.Out)
 	cmd := exec.Command(sc.bin, "-test.run", "^"+sp.TestName+"$", "-test.timeout", "0", "-test.cpu", "1")
 	cmd.Dir = filepath.Join(sc.repo, sp.TestPkg)
-	cmd.Env = append(os.Environ(), "VERIF_JOB="+jf, "GOMAXPROCS="+gomaxprocs(), "GODEBUG=asynctimerchan=0")
+	cmd.Env = append(os.Environ(), "VERIF_JOB="+jf, "VERIF_SCRATCH="+sc.dir, "GOMAXPROCS="+gomaxprocs(), "GODEBUG=asynctimerchan=0")
 	var buf bytes.Buffer
 	cmd.Stdout, cmd.Stderr = &buf, &buf
 	if err := cmd.Start(); err != nil {
